@@ -32,7 +32,7 @@ def rate_domain(n, d):
 def prove_time_kernels(mod, stubs, st, timeout=60):
     """-> dict(ok, floor=[(name, verdict, model, dt)], ceil=[...], vars, ex_floor, ex_ceil)"""
     out = dict(ok=True, floor=[], ceil=[])
-    ex = Exec(mod, stubs); ex.reset(); ex.ovf_mode = 'obligation'
+    ex = Exec(mod, stubs); ex.reset(); ex.ovf_mode = 'obligation'; ex.fp_exact = True
     k, n, d = z3.Ints('k n d')
     for c in [k >= 0, k < 2**63] + rate_domain(n, d): ex.assume(c)
     ret, sec, ps = run_floor(ex, k, n, d)
@@ -49,7 +49,7 @@ def prove_time_kernels(mod, stubs, st, timeout=60):
         r, m, dt = smt.prove(pc, cl, lem, timeout, st)
         out['floor'].append((nm, r, m, dt)); out['ok'] &= (r == 'unsat')
     out['fvars'] = (k, n, d, R, R2); out['fpc'] = pc
-    ex2 = Exec(mod, stubs); ex2.reset(); ex2.ovf_mode = 'obligation'
+    ex2 = Exec(mod, stubs); ex2.reset(); ex2.ovf_mode = 'obligation'; ex2.fp_exact = True
     s_, p_, n2, d2 = z3.Ints('s p n d')
     for c in [s_ >= 0, s_ < rates.Y9999, p_ >= 0, p_ < T12] + rate_domain(n2, d2): ex2.assume(c)
     ret2, o = run_ceil(ex2, s_, p_, n2, d2)
